@@ -22,7 +22,36 @@ use serde_json::json;
 use std::collections::{BTreeMap, BTreeSet, HashMap};
 use vharness::util::*;
 
-const HEADER: &str = "From RV Require Import Corr.C18.\nLocal Open Scope string_scope.\nLocal Open Scope N_scope.\nLocal Open Scope list_scope.";
+const HEADER0: &str = "From RV Require Import Corr.C18.\nLocal Open Scope string_scope.\nLocal Open Scope N_scope.\nLocal Open Scope list_scope.";
+const NSYM_KEYS: usize = 120;
+
+/// Coq elaborates a string literal at ~50 us per character, which dominated the run time
+/// of the case files; keys and LWW values come from small alphabets, so the header defines
+/// each of them once (`Definition k7 := "6b37".`) and the cases refer to the names.
+fn header() -> String {
+    let mut h = String::from(HEADER0);
+    for i in 0..NSYM_KEYS {
+        h.push_str(&format!("\nDefinition k{} := {}.", i, chex(key_name(i).as_bytes())));
+    }
+    for (i, v) in VALS.iter().enumerate() {
+        h.push_str(&format!("\nDefinition v{} := {}.", i, chex(v)));
+    }
+    h
+}
+fn key_sym(k: &str) -> String {
+    for i in 0..NSYM_KEYS {
+        if key_name(i) == k {
+            return format!("k{}", i);
+        }
+    }
+    chex(k.as_bytes())
+}
+fn val_sym(v: &[u8]) -> String {
+    match VALS.iter().position(|x| *x == v) {
+        Some(i) => format!("v{}", i),
+        None => chex(v),
+    }
+}
 
 type Map = HashMap<String, ReplicatedValue>;
 
@@ -180,16 +209,40 @@ fn fold_deltas(rng: &mut Rng, log: &[ReplicationDelta], rid: u64) -> Map {
     s.replicated_keys
 }
 
-fn entries_term(m: &Map) -> String {
-    clist(m.iter(), |(k, v)| format!("({}, {})", chex(k.as_bytes()), rv_term(v, false)))
+/// Coq term of a value: the short form `VL` for a plain LWW register stamped like its
+/// wrapper (no vector clock / expiry / rf), the general `V` form of Corr/C07.v otherwise.
+fn val_term(v: &ReplicatedValue) -> String {
+    if let Some(l) = v.lww() {
+        if l.timestamp == v.timestamp && v.vector_clock.is_none() && v.expiry_ms.is_none() && v.replication_factor.is_none() {
+            return format!(
+                "(VL {} {} {} {})",
+                copt(&l.value, |x| val_sym(x.as_bytes())),
+                v.timestamp.time,
+                v.timestamp.replica_id.0,
+                cbool(l.tombstone)
+            );
+        }
+    }
+    rv_term(v, false)
 }
+fn entries_term(m: &Map) -> String {
+    clist(m.iter(), |(k, v)| format!("({}, {})", key_sym(k), val_term(v)))
+}
+/// u64 as a Coq N literal; hexadecimal for large values (Coq converts a 20-digit decimal
+/// literal about six times slower than the same number in hex).
+fn num(x: u64) -> String {
+    if x < 100_000 { x.to_string() } else { format!("0x{:x}", x) }
+}
+/// (G root count max nbuckets [(index, hash, count, max) of every bucket != MerkleNode::empty()])
 fn digest_term(d: &StateDigest) -> String {
+    let empty = redis_sim::replication::anti_entropy::MerkleNode::empty();
     format!(
-        "(G {} {} {} {})",
-        d.root_hash,
+        "(G {} {} {} {} {})",
+        num(d.root_hash),
         d.key_count,
-        d.max_timestamp,
-        clist(d.buckets.iter(), |b| format!("({},{},{})", b.hash, b.count, b.max_timestamp))
+        num(d.max_timestamp),
+        d.buckets.len(),
+        clist(d.buckets.iter().enumerate().filter(|(_, b)| **b != empty), |(i, b)| format!("({},{},{},{})", i, num(b.hash), b.count, num(b.max_timestamp)))
     )
 }
 fn bucket_of_key(k: &str, v: &ReplicatedValue, depth: usize) -> usize {
@@ -245,7 +298,7 @@ fn digest_oracle(out: &mut Out, i: u64, tag: &str, a: &Map, b: &Map, da: &StateD
 fn main() {
     let a: Vec<String> = std::env::args().collect();
     let args = &Args::parse(&a[1..]);
-    let mut out = Out::new(&args.out, "C18", args.shards, HEADER);
+    let mut out = Out::new(&args.out, "C18", args.shards, &header());
     out.nontrivial_rule = "pairs of replica states (HashMap<String,ReplicatedValue>) produced by three real ShardReplicaStates writing LWW/hash/counter/set values to a small key space and gossiping part of the deltas; pair = same content rebuilt in a shuffled insertion order / same delta set folded in two orders / two partially synced replicas / small-limit pair; depth 0-3 (1-8 buckets, many keys per bucket) or 8; non-trivial = both states non-empty and some bucket holds >= 2 keys; distinct by canonical text of (content A, content B, depth, limit)".into();
     let range: Vec<u64> = match args.only { Some(i) => vec![i], None => (0..args.n).collect() };
     let rounds_max = args.get("rounds", 12);
@@ -309,7 +362,10 @@ fn main() {
 
         if scen == 5 {
             // 1 << 64 on usize: a panic before anything is allocated (overflow checks on)
+            let hook = std::panic::take_hook();
+            std::panic::set_hook(Box::new(|_| {}));
             let r = std::panic::catch_unwind(|| StateDigest::from_state(&ma, ReplicaId(1), 0, 64));
+            std::panic::set_hook(hook);
             let term = if r.is_err() {
                 format!("(KP 64 {})", entries_term(&ma))
             } else {
@@ -460,8 +516,8 @@ fn main() {
             "(KS {} {} {} {} {} {} {} {} {} {} {} {} {} {} {})",
             depth, limit, la, lb, digest_term(&da), digest_term(&db), cbool(dif),
             clist(dv.iter(), |x| x.to_string()),
-            clist(sa.iter(), |d| chex(d.key.as_bytes())),
-            clist(sb.iter(), |d| chex(d.key.as_bytes())),
+            clist(sa.iter(), |d| key_sym(&d.key)),
+            clist(sb.iter(), |d| key_sym(&d.key)),
             cbool(fired), la2, lb2, digest_term(&da2), digest_term(&db2)
         );
         let canon = format!("{:?}|{:?}|{}|{}", content(&a0), content(&b0), depth, limit);
